@@ -180,6 +180,9 @@ class LogarithmicUnitType(UnitType):
             if len(self.baseunits1.units) not in [1,2] or len(self.baseunits2.units) not in [1,2]:
                 raise Exception("Only simple and fraction units can be converted between each other:",
                                 self.baseunits1.units, self.baseunits2.units)
+            if self.baseunits1.dimensions!=self.baseunits2.dimensions:
+                raise Exception("Unsupported conversion between units:",
+                                self.baseunits1.expression, self.baseunits2.expression)
             conversion = f"{self.baseunits1.units[0]}_{self.baseunits2.units[0]}"
             if conversion in self.conversions:
                 self.conversion = self.conversions[conversion]
